@@ -46,7 +46,9 @@ def checkFix (case impl : List String) : List Fail := Id.run do
     let some ops := opToks.mapM parseOptTok | return bad "op"
     let oem : Oem := ⟨oid, otab, orev⟩
     let c : EArgs := { n := ctor.toArray }
-    let layoutTag := match t with | .slit => "C04,C12" | .fadt | .tcpas => "C04,C11" | _ => "C04"
+    let layoutTag := match t with | .slit => "C04,C12" | _ => "C04"
+    let corrTag := match t with | .slit => "C04,C12" | .fadt | .tcpas => "C04,C11" | _ => "C04"
+    let mut img0 : Bytes := []
     let mut fails : List Fail := []
     let mut st := FixedState.new t oem c
     let mut i := 0
@@ -86,10 +88,10 @@ def checkFix (case impl : List String) : List Fail := Id.run do
           else m0
         if m ≠ img then
           let d := firstDiff m img
-          let tag := if m.length ≠ img.length then "C02," ++ layoutTag
+          let tag := if m.length ≠ img.length then "C02," ++ corrTag
             else if t ≠ .rsdp ∧ t ≠ .facs ∧ d = 9 ∧ (m.drop 10 = img.drop 10) then "C01"
             else if t ≠ .rsdp ∧ t ≠ .facs ∧ 4 ≤ d ∧ d < 8 then "C02"
-            else layoutTag
+            else (if i = 0 then layoutTag else corrTag)
           fails := fails ++ [⟨"corr", tag, "image", s!"{tname} obs#{i}: first difference at byte {d} (model {m.getD d 0}, impl {img.getD d 0})"⟩]
         -- oracles on the implementation's image
         match t with
@@ -110,6 +112,21 @@ def checkFix (case impl : List String) : List Fail := Id.run do
         match Spec.conforms total rows img with
         | some e => fails := fails ++ [⟨"prop", layoutTag, "layout", s!"{tname} obs#{i}: {e}"⟩]
         | none => pure ()
+        -- C11 (FADT, TCPA server): an option's own fields hold the reference value, every other
+        -- byte is what the option-free table (observation 0) has; the checksum byte is C01's
+        if i = 0 then img0 := img
+        if (t = .fadt ∨ t = .tcpas) ∧ i > 0 ∧ img0.length = img.length then
+          let (_, rows0) := Spec.fixedRows t oem c [] rev cks ecks
+          let ref := Spec.render rows
+          let ref0 := Spec.render rows0
+          if ref.length = img.length ∧ ref0.length = img.length then
+            let idx := (List.range img.length).filter (· ≠ 9)
+            match idx.find? (fun p => ref.getD p 0 ≠ ref0.getD p 0 ∧ img.getD p 0 ≠ ref.getD p 0) with
+            | some p => fails := fails ++ [⟨"prop", "C11", "option-own-field", s!"{tname} obs#{i}: byte {p} governed by the calls made is {img.getD p 0}, reference {ref.getD p 0}"⟩]
+            | none => pure ()
+            match idx.find? (fun p => ref.getD p 0 = ref0.getD p 0 ∧ img.getD p 0 ≠ img0.getD p 0) with
+            | some p => fails := fails ++ [⟨"prop", "C11", "option-frame", s!"{tname} obs#{i}: byte {p} outside the fields of the calls made changed from {img0.getD p 0} to {img.getD p 0}"⟩]
+            | none => pure ()
       i := i + 1
     return fails
   | _ => return bad "header"
